@@ -26,14 +26,14 @@ def specs_for(ctx):
             flips = {str(c): bool(pat >> c & 1) for c in range(nc)}
             shifts = {str(c): rng.randrange(6) for c in range(nc)}
             specs.append(mk(rng, {"kind": "catalogue", "base": base, "sagitta": rng.choice([None, 0.15]), "tseed": 5}, 10.0,
-                            flips, shifts, k=rng.choice([1, 3]), exhaustive=True))
+                            flips, shifts, k=rng.choice([0, 1, 3]), exhaustive=True))
     for i in range(ctx.pick(30, 2000)):
         tissue = {"kind": "equilibrium", "ncells": rng.choice([6, 12, 20] if ctx.quick else [6, 12, 20, 40]),
                   "mobius": rng.choice([0.0, 0.6, 1.3]), "noise": rng.choice([0, 0.1, 0.5])}
         nc = 80
         flips = {str(c): rng.random() < 0.5 for c in range(nc)}
         shifts = {str(c): rng.randrange(7) for c in range(nc)}
-        specs.append(mk(rng, tissue, 1.0, flips, shifts, k=rng.choice([1, 2, 4, 8])))
+        specs.append(mk(rng, tissue, 1.0, flips, shifts, k=rng.choice([0, 0, 1, 2, 4, 8])))
     return specs
 
 
